@@ -197,6 +197,12 @@ class Ctx:
                                        "decisions_on_path": len(self.E.trail),
                                        "term_size": len(str(t)[:4000])})
             return True
+        if getattr(self, "prefer", None):      # prefer small witnesses for the replay
+            try:
+                m2 = self.E.model_of(z3.And(z3.Not(t), *self.prefer))
+            except Inconclusive:
+                m2 = None
+            m = m2 if m2 is not None else m
         inputs = self.model_inputs(m)
         run["cex"].append({"key": label, "inputs": inputs})
         self.E.assume(t)
@@ -282,7 +288,14 @@ def run_case_symbolic(case, str_constants=None):
             case.fn(ctx)
         except Exception as e:   # noqa  (path-steering exceptions are BaseException)
             key = exc_key(e)
-            m = E.model_of()
+            m = None
+            if getattr(ctx, "prefer", None):
+                try:
+                    m = E.model_of(z3.And(*ctx.prefer))
+                except Inconclusive:
+                    m = None
+            if m is None:
+                m = E.model_of()
             run["exc_paths"] += 1
             run["cex"].append({"key": key, "inputs": ctx.model_inputs(m) if m is not None else {},
                                "tb": traceback.format_exc()[-1500:]})
